@@ -33,13 +33,16 @@ ASSUMPTIONS = ["constructor precondition guard_time <= stop_timeout (documented 
 EXPECT_LABELS = {'all': ['one-result-per-put', 'result-data', 'wait-fifo', 'one-at-a-time', 'guard-separation',
                          'cancel-only-newer', 'newest-completes', 'start-at-once', 'output-walk', 'output-idle',
                          'stop-data-last', 'no-leftover', 'output-timeline', 'result-time']}
-EXPECT_NOTES = {'all': ['run-cancelled', 'put-discarded', 'arrival-during-guard', 'simultaneous-arrivals', 'run-failed']}
+EXPECT_NOTES = {'all': ['run-cancelled', 'put-discarded', 'arrival-during-guard', 'simultaneous-arrivals', 'run-failed',
+                        'put-between-stop-request-and-stop', 'put-after-stop-skipped']}
 FLOORS = {'quick': {'paths': 200, 'checks': 2000}, 'thorough': {'paths': 2000, 'checks': 20000}}
 
 STOP_VALUE = 'STOP'
 
 
-def scen_oa(env, mode, with_guard, nput, stop_data, late=False):
+def scen_oa(env, mode, with_guard, nput, stop_data, late=False, hop_put=False):
+    """hop_put: the last put is not an external event but an (internal) event delivered 0..3 event-loop iterations
+    AFTER the stop was requested - while the block is not stopped yet it is an accepted put like any other"""
     circ = fresh_circuit()
     loopref = []
     now = lambda: loopref[0].time()
@@ -86,7 +89,13 @@ def scen_oa(env, mode, with_guard, nput, stop_data, late=False):
         asyncio.create_task(circ.run_forever())
         await circ.wait_init()
         ev = edzed.ExtEvent(oa, 'put', source='_ext_src')
-        for i in range(nput):
+        orig_stop = oa.stop
+
+        def stop_seen():
+            state['oa_stopped'] = True
+            orig_stop()
+        oa.stop = stop_seen
+        for i in range(nput - 1 if hop_put else nput):
             if late:
                 # let the block schedule its own timers first: at an exact tie (arrival = completion of a
                 # run / end of the guard time) the block's timer then runs BEFORE the arrival
@@ -99,6 +108,27 @@ def scen_oa(env, mode, with_guard, nput, stop_data, late=False):
         await asyncio.sleep(stop_gap)
         state['stop_at'] = loop.time()
         trace.append(('stop', loop.time(), None, None))
+        if hop_put:
+            h = env.choose(4, 'hops_after_stop_request')
+            last = nput - 1
+
+            def hop(rem):
+                if rem > 0:
+                    loop.call_soon(hop, rem - 1)
+                    return
+                if state.get('oa_stopped'):
+                    state['skipped'] = True         # a put to a stopped block: nothing is claimed
+                    return
+                arrivals[last] = loop.time()
+                trace.append(('arrive', loop.time(), last, None))
+                try:
+                    oa.event('put', value=last, extra=('x', last), source='_ext_src')
+                except Exception as err:
+                    state['hop_exc'] = err
+            if h == 0:
+                hop(0)
+            else:
+                loop.call_soon(hop, h - 1)
         await circ.shutdown()
         state['stopped_at'] = loop.time()
         state['leftover'] = [t.get_name() for t in asyncio.all_tasks() if t is not asyncio.current_task() and not t.done()]
@@ -107,6 +137,12 @@ def scen_oa(env, mode, with_guard, nput, stop_data, late=False):
         state['late'] = len(p.log)
     vloop.run(main())
     # ---- observed -------------------------------------------------------------------------
+    if hop_put:
+        if state.get('skipped'):
+            env.note('put-after-stop-skipped')
+            return
+        env.note('put-between-stop-request-and-stop')
+        env.check('noerror', state.get('hop_exc') is None, info=lambda: state.get('hop_exc'))
     results = {}
     for t, et, d in p.log:
         v = d['put']['value']
@@ -279,4 +315,9 @@ def shards(tier):
                                 'scenario': 'scen_oa',
                                 'params': {'mode': mode, 'with_guard': wg, 'nput': nn, 'stop_data': sd, 'late': late},
                                 'cost': (3 if wg else 1) * (2 if sd else 1)})
+    # a put in the window between the stop request and the block's stop()
+    for mode in ('start', 'wait', 'cancel'):
+        for sd in (False, True):
+            out.append({'name': f'{mode} puts=2 stop_data={sd} last put after the stop request', 'scenario': 'scen_oa',
+                        'params': {'mode': mode, 'with_guard': False, 'nput': 2, 'stop_data': sd, 'hop_put': True}, 'cost': 2})
     return out
